@@ -41,7 +41,7 @@ def num_lit(rng, ty):
 def gen_program(i):
     rng = random.Random(7700 + i)
     deftypes = []
-    for _ in range(rng.randint(2, 6)):
+    for _ in range(rng.randint(2, 5)):
         kw = rng.choice(KW)
         ranges = []
         for _ in range(rng.randint(1, 3)):
@@ -63,22 +63,22 @@ def gen_program(i):
     lits = []
     for kw, ranges in deftypes:
         lines.append(kw + ' ' + ', '.join(a if b is None else f'{a}-{b}' for a, b in ranges))
-    nconst = rng.randint(1, 4)
+    nconst = rng.randint(1, 2)
     consts = []
     for k in range(nconst):
         lines.append(f'CONST kk{k}% = {rng.randint(1, 9)}')
         consts.append(f'kk{k}%')
-    ntypes = rng.randint(1, 2)
+    ntypes = 1
     for k in range(ntypes):
-        lines += [f'TYPE rec{k}', '  n AS INTEGER', '  v AS DOUBLE', '  t AS STRING', 'END TYPE']
-    nshared = rng.randint(1, 4)
+        lines += [f'TYPE rec{k}', '  n AS INTEGER', '  t AS STRING', 'END TYPE']
+    nshared = rng.randint(1, 2)
     for k in range(nshared):
         lines.append(f'DIM SHARED gs{k}({rng.randint(2, 6)}) AS ' + rng.choice(['INTEGER', 'LONG', 'DOUBLE']))
     lines.append('DIM SHARED gcount AS LONG')
     for k in range(ntypes):
         lines.append(f'DIM zrec{k} AS rec{k}')
-    nsubs = rng.randint(2, 6)
-    nfuncs = rng.randint(1, 4)
+    nsubs = rng.randint(2, 3)
+    nfuncs = rng.randint(1, 2)
     for k in range(nsubs):
         lines.append(f'DECLARE SUB sp{k} (pa%, pb$)')
     for k in range(nfuncs):
@@ -86,7 +86,7 @@ def gen_program(i):
 
     decls, uses, data = [], [], []
     last_label = [None]
-    nlabels = rng.randint(6, 16)
+    nlabels = rng.randint(4, 7)
     labels = [f'lb{k}' for k in range(nlabels)]
     rng.shuffle(labels)
     data_labels = []
@@ -110,12 +110,11 @@ def gen_program(i):
         lines.append(f'{lb}:')
         decls.append(lb)
         last_label[0] = lb
-        for _ in range(rng.randint(1, 3)):
-            lines += body_stmt()
+        lines += body_stmt()
         r = rng.random()
         if r < 0.45:
             items = []
-            for q in range(rng.randint(1, 4)):
+            for q in range(rng.randint(1, 3)):
                 c = rng.random() if q > 0 else rng.random() * 0.9
                 if c < 0.4:
                     items.append(str(rng.randint(0, 99)))
@@ -139,8 +138,7 @@ def gen_program(i):
             lines.append(f'PRINT fn{k % nfuncs}#({rng.randint(1, 5)})')
         if k % 5 == 3:
             kk = k % ntypes
-            lines += [f'zrec{kk}.n = {k}', f'zrec{kk}.t = {lit(rng.choice(WORDS[:4]))}',
-                      f'PRINT zrec{kk}.n; zrec{kk}.t']
+            lines += [f'zrec{kk}.t = {lit(rng.choice(WORDS[:4]))}', f'PRINT zrec{kk}.n; zrec{kk}.t']
         if k % 6 == 4:
             lines += [f'gs{k % nshared}(1) = {k}', f'PRINT gs{k % nshared}(1)']
         if k + 1 < len(labels):
@@ -171,7 +169,6 @@ def gen_program(i):
         lines.append(f'SUB sp{k} (pa%, pb$)')
         if k % 2 == 0:
             lines.append('  STATIC calls%')
-            lines.append('  calls% = calls% + 1')
         lines.append('  gcount = gcount + pa%')
         lines.append(f'  PRINT {lit(rng.choice(WORDS[:7]))}; pa%; pb$')
         lines.append('END SUB')
